@@ -14,7 +14,8 @@
 (*   enc    ZipCrypto buffer active                                        *)
 (*   wtf, wtef, wcef, wraw   the four mode flags                           *)
 (*   files  sequence of entry records                                      *)
-(*   xbuf   extra-data records collected so far (tokens)                   *)
+(*   xbuf   extra-data records collected so far (tokens); xpre = the part  *)
+(*          of it the writer itself put there (alignment padding)          *)
 (*   stats  [start, len, crc] of the data written to the open entry        *)
 (*   gap    bytes written after a raw copy (absorbed, quirk)               *)
 (*   comment, pos (sink position; -1 = not determined: a compressor or the *)
@@ -22,6 +23,7 @@
 (***************************************************************************)
 EXTENDS ZipFormat, TLC
 
+EmptyId == "cbf29ce484222325"      \* identity (FNV-1a) of the empty byte string in the harness's abstraction
 NoLevel == -1000
 NoPerm  == -1
 Closed  == -1
@@ -63,9 +65,9 @@ LastIx(w) == Len(w.files)
 Last(w)   == w.files[Len(w.files)]
 
 Init0 == [comp |-> 0, enc |-> FALSE, wtf |-> FALSE, wtef |-> FALSE, wcef |-> FALSE, wraw |-> FALSE,
-          files |-> <<>>, xbuf |-> <<>>, stats |-> [start |-> 0, len |-> 0, crc |-> ZeroCrc], gap |-> 0,
-          comment |-> [id |-> "", len |-> 0], pos |-> 0, dead |-> FALSE, foreign |-> FALSE,
-          fin |-> FALSE, cdstart |-> 0, al |-> 0]
+          files |-> <<>>, xbuf |-> <<>>, xpre |-> <<>>, stats |-> [start |-> 0, len |-> 0, crc |-> ZeroCrc], gap |-> 0,
+          comment |-> [id |-> EmptyId, len |-> 0], pos |-> 0, dead |-> FALSE, foreign |-> FALSE,
+          fin |-> FALSE, cdstart |-> 0, al |-> 0, gaps |-> <<>>]
 
 Ok(w) == [w |-> w, ok |-> TRUE]
 Er(w) == [w |-> w, ok |-> FALSE]
@@ -112,7 +114,10 @@ FinishFileF(w, cs) ==
    ELSE LET w1 == r1.w IN
         IF w1.comp = Closed THEN Er(w1)
         ELSE IF w1.files = <<>> \/ w1.wraw
-             THEN Ok([w1 EXCEPT !.comp = 0, !.enc = FALSE, !.wtf = FALSE, !.wraw = FALSE, !.gap = 0])
+             THEN Ok([w1 EXCEPT !.comp = 0, !.enc = FALSE, !.wtf = FALSE, !.wraw = FALSE, !.gap = 0,
+                                \* WriteAfterRawCopyIsGap: the absorbed bytes stay in the file, unaccounted
+                                !.gaps = IF w1.gap > 0 /\ w1.pos # -1
+                                         THEN Append(w1.gaps, [from |-> w1.pos - w1.gap, to |-> w1.pos]) ELSE w1.gaps])
              ELSE LET k == LastIx(w1) E == Last(w1) IN
                   IF ~E.large /\ cs > Thr32
                   THEN Er([w1 EXCEPT !.dead = TRUE, !.pos = -1])   \* sizes do not fit: sink left inside the header
@@ -132,7 +137,7 @@ StartEntryF(w, nm, kind, m, lv, large, enc, dt, mode, cs, raw) ==
                                 raw.crc, raw.usize, raw.csize)
              IN Ok([w1 EXCEPT !.files = Append(w1.files, e), !.pos = e.dstart, !.enc = enc,
                               !.stats = [start |-> e.dstart, len |-> 0, crc |-> ZeroCrc],
-                              !.xbuf = <<>>])
+                              !.xbuf = <<>>, !.xpre = <<>>])
 NoRaw == [crc |-> ZeroCrc, usize |-> 0, csize |-> 0]
 
 FileMode(perm)    == (IF perm = NoPerm THEN 420 ELSE perm % 512) + 32768      \* 0o644 | 0o100000
@@ -153,9 +158,11 @@ StartFileExtraF(w, nm, o, cs) ==
    IF ~r.ok THEN r ELSE Ok([r.w EXCEPT !.wtf = TRUE, !.wtef = TRUE])
 
 \* write: k bytes accepted, acc = [len, crc] of everything accepted for this entry so far
-WriteDataF(w, k, acc) ==
+\* xt = the extra-data records formed by ALL bytes written since the extra phase began
+WriteDataF(w, k, acc, xt) ==
    IF ~w.wtf THEN Er(w)                                      \* no file started / after dir, symlink, finish
    ELSE IF w.comp = Closed THEN Er(w)
+   ELSE IF w.wtef THEN Ok([w EXCEPT !.xbuf = w.xpre \o xt]) \* extra phase: bytes are collected, not written
    ELSE IF w.wraw
         THEN Ok([w EXCEPT !.gap = w.gap + k, !.pos = IF w.pos = -1 THEN -1 ELSE w.pos + k]) \* WriteAfterRawCopyIsGap
    ELSE LET n  == w.stats.len + k
@@ -163,13 +170,11 @@ WriteDataF(w, k, acc) ==
                             !.pos = IF w.comp = 0 /\ ~w.enc /\ w.pos # -1 THEN w.pos + k ELSE -1]
         IN IF n > Thr32 /\ ~Last(w).large THEN Er(Poison(w1))   \* PoisonOnOversize
            ELSE Ok(w1)
-WriteExtraF(w, toks) ==
-   IF ~w.wtf \/ w.comp = Closed THEN Er(w) ELSE Ok([w EXCEPT !.xbuf = w.xbuf \o toks])
 
 EndLocalStartCentralF(w) ==
    LET r == EndExtraF(w) IN
    IF ~r.ok THEN r
-   ELSE Ok([r.w EXCEPT !.files[LastIx(w)].cx = <<>>, !.xbuf = <<>>, !.wtef = TRUE, !.wcef = TRUE])
+   ELSE Ok([r.w EXCEPT !.files[LastIx(w)].cx = <<>>, !.xbuf = <<>>, !.xpre = <<>>, !.wtef = TRUE, !.wcef = TRUE])
 
 \* start_file_aligned: pad record 0x617a so that the data start becomes a multiple of `a`
 PadLen(ds, a) == (a - ((ds + 4) % a)) % a
@@ -181,7 +186,7 @@ AlignedF(w, nm, o, a, cs, padh) ==
         IN IF a > 1 /\ ds % a # 0
            THEN LET pl  == PadLen(ds, a)
                     tok == [id |-> 24954, dsz |-> pl, asz |-> pl, hl |-> 4, h |-> padh]
-                    r2  == EndLocalStartCentralF([w1 EXCEPT !.xbuf = <<tok>>])
+                    r2  == EndLocalStartCentralF([w1 EXCEPT !.xbuf = <<tok>>, !.xpre = <<tok>>])
                 IN IF ~r2.ok THEN [w |-> r2.w, ok |-> FALSE, ret |-> 0]
                    ELSE LET r3 == EndExtraF(r2.w) IN [w |-> r3.w, ok |-> r3.ok, ret |-> 4 + pl]
            ELSE LET r3 == EndExtraF(w1) IN [w |-> r3.w, ok |-> r3.ok, ret |-> 0]
@@ -240,8 +245,7 @@ StartFileExtra(nm, o, cs)  == ~w.dead /\ Step(StartFileExtraF(w, nm, o, cs))
 StartFileAligned(nm, o, a, cs, padh) ==
    ~w.dead /\ LET r == AlignedF(w, nm, o, a, cs, padh) IN
       w' = [r.w EXCEPT !.al = IF r.ok THEN a ELSE 0] /\ res' = (IF r.ok THEN "ok" ELSE "err")
-WriteData(k, acc)   == ~w.dead /\ Step(WriteDataF(w, k, acc))
-WriteExtra(toks)    == ~w.dead /\ Step(WriteExtraF(w, toks))
+WriteData(k, acc, xt) == ~w.dead /\ Step(WriteDataF(w, k, acc, xt))
 EndExtra            == ~w.dead /\ Step(EndExtraF(w))
 EndLocalStartCentral == ~w.dead /\ Step(EndLocalStartCentralF(w))
 AddDir(dnm, o, cs)  == ~w.dead /\ Step(AddDirF(w, dnm, o, cs))
@@ -313,5 +317,5 @@ ExpLayout(ww) ==
        z64 |-> IF z THEN <<[loc_pos |-> cde + Z64Rec, loc_disk |-> 0, loc_off |-> cde, loc_ndisks |-> 1,
                             rec_pos |-> cde, rec_size |-> 44, disk |-> 0, cddisk |-> 0, n_disk |-> n,
                             n_total |-> n, cd_size |-> cde - cdstart, cd_offset |-> cdstart]>> ELSE <<>>,
-       gaps |-> <<>>, overlaps |-> <<>>, big |-> <<>>]
+       gaps |-> ww.gaps, overlaps |-> <<>>, big |-> <<>>]
 =============================================================================
